@@ -387,6 +387,14 @@ impl KeyExchangeClient {
 
         let response = KeyExchangeResponse::parse(&mut io).await?;
 
+        // Only adopt parameters that we actually offered to the server
+        if !self.protocols.contains(&response.protocol) {
+            return Err(NtsError::NoOverlappingProtocol);
+        }
+        if !self.algorithms.contains(&response.algorithm) {
+            return Err(NtsError::NoOverlappingAlgorithm);
+        }
+
         let keys = NtsKeys::extract_from_connection(
             io.get_ref().1,
             response.protocol,
